@@ -32,6 +32,13 @@ def main():
             meta_in = json.load(open(os.path.join(outdir, "meta.json")))
         except Exception:
             meta_in = {}
+    prev = os.path.join(VERIF, "seeded", name, "meta.json")
+    if os.environ.get("SEED_SKIP_CONFIRM") == "1" and os.path.exists(prev):
+        # the confirmation (scratch worktree: existing tests pass, demo fails with / passes without) was done before
+        pm = json.load(open(prev))
+        res = {"name": name, "property": prop, "summary": pm.get("what_it_breaks"), "needs": pm.get("needs_to_manifest")}
+        res.update(pm.get("confirmed", {}))
+        return finish_checks(res, name, patch, demo, prop, checks)
     wt = "/tmp/mut/verify-%s" % name
     sh("git -C /repo worktree remove --force %s" % wt)
     shutil.rmtree(wt, ignore_errors=True)
@@ -58,6 +65,10 @@ def main():
     finally:
         sh("git -C /repo worktree remove --force %s" % wt)
         shutil.rmtree(wt, ignore_errors=True)
+    return finish_checks(res, name, patch, demo, prop, checks)
+
+
+def finish_checks(res, name, patch, demo, prop, checks):
     confirmed = all(res.get(k) for k in ("patch_applies", "demo_passes_without_change", "demo_fails_with_change",
                                           "existing_tests_pass_with_change"))
     res["confirmed"] = confirmed
